@@ -353,13 +353,18 @@ TRUSTED_COMMON = [
 
 
 def proof_stage(ctx, props_rel, extra_targets=()):
-    """Steps 1-2 of DESIGN 3.6 + hygiene + Print Assumptions.  Returns True when all obligations discharged."""
+    """Steps 1-2 of DESIGN 3.6 + hygiene + Print Assumptions.  props_rel: one Props file or a list of them.
+    Returns True when all obligations discharged."""
+    props = [props_rel] if isinstance(props_rel, str) else list(props_rel)
     ok, msg = translate()
     if not ok:
         ctx.brk('translator', 'translation of /repo failed (source left the supported subset)', msg)
-    target = props_rel + 'o'
-    ok2, log = coq_make([target] + list(extra_targets))
-    files = cone(props_rel)
+    ok2, log = coq_make([p + 'o' for p in props] + list(extra_targets))
+    files = []
+    for p in props:
+        for f in cone(p):
+            if f not in files:
+                files.append(f)
     nob, ndone = count_obligations(files)
     ctx.cov['obligations'], ctx.cov['discharged'] = nob, ndone if ok2 else min(ndone, nob - 1)
     ctx.cov['cone'] = files
@@ -372,15 +377,21 @@ def proof_stage(ctx, props_rel, extra_targets=()):
     bad = hygiene()
     if bad:
         ctx.brk('hygiene', 'forbidden declarations in the development', bad[:20])
-    thms = theorems_of(props_rel)
-    ctx.cov['theorems'] = thms
+    ctx.cov['theorems'] = []
+    ctx.cov['print_assumptions'] = {}
+    allax = set()
+    for p in props:
+        thms = theorems_of(p)
+        ctx.cov['theorems'] += thms
+        if ok2:
+            mod = p[:-2].replace('/', '.')
+            ok3, per, axioms = print_assumptions(mod, thms)
+            ctx.cov['print_assumptions'].update({k: (v if len(v) < 600 else v[:600] + '...') for k, v in per.items()})
+            allax.update(axioms)
+            if not ok3:
+                ctx.brk('proof', 'Print Assumptions failed for ' + mod, per)
     if ok2:
-        mod = props_rel[:-2].replace('/', '.')
-        ok3, per, axioms = print_assumptions(mod, thms)
-        ctx.cov['print_assumptions'] = {k: (v if len(v) < 600 else v[:600] + '...') for k, v in per.items()}
-        ctx.cov['trusted_base'] = TRUSTED_COMMON + ['axioms (Print Assumptions): ' + (', '.join(axioms) if axioms else 'none - closed under the global context')]
-        if not ok3:
-            ctx.brk('proof', 'Print Assumptions failed for ' + mod, per)
+        ctx.cov['trusted_base'] = TRUSTED_COMMON + ['axioms (Print Assumptions): ' + (', '.join(sorted(allax)) if allax else 'none - closed under the global context')]
     else:
         ctx.cov['trusted_base'] = TRUSTED_COMMON
     return ok and ok2 and not bad
